@@ -2,7 +2,7 @@
 from ..engine import Scenario
 from ..world import World
 
-NONTRIVIAL = {"reset-compared"}
+NONTRIVIAL = ()
 RULE = ("every state reachable by histories over the union menu (moves in/out of the region, retract/recover, "
         "deferred codes, disable, inch/relative, cancel/done, API add/update) up to the depth bound is followed by "
         "print-started on a copy; (1) the canonical plugin state must equal that of a freshly initialised plugin "
@@ -17,11 +17,11 @@ ASSUMPTIONS = ["'same regions and settings' = the region list (ids, order, geome
 def scenarios(tier):
     q = tier == "quick"
     menu = [("C10CHECK",),
-            ("TRAVEL", "I1"), ("TRAVEL", "O2"), ("PRINT", "I2"), ("RETRACT",), ("RECOVER",), ("RAW", "M117 x"),
+            ("TRAVEL", "I1"), ("TRAVEL", "O2"), ("PRINT", "I2"), ("WIPE", "I1"), ("RETRACT",), ("RECOVER",), ("RAW", "M117 x"),
             ("RAW", "M204 S5"), ("AT", "ExcludeRegion", "disable"), ("INCH",), ("REL",), ("ZMOVE", 2),
             ("FWRETRACT",), ("RAW", "G1 F600"),
             ("EV", "PRINT_CANCELLED"), ("EV", "PRINT_DONE"), ("NEWPRINT",),
             ("API", "add", "b", "cIn", False), ("API", "upd", "r", "rBig", False)]
     cfg = dict(prop="C10", monitors=(), regions=["R"], emax=1, key_depth=False, maxregions=2,
-               probe_depth=2 if q else 3, exit="M400\n")
+               probe_depth=2 if q else 3, exit="M400\n", enter="M300 S1\n")
     return [Scenario("c10-restart", World, cfg, menu, max_depth=5 if q else 7, max_states=40000 if q else 1500000)]
